@@ -480,6 +480,8 @@ package server
 //@   frame-assumed preserves Entity.IsDeleted, Entity.ID, Dataset.store, Dataset.fullSyncStarted, Dataset.fullSyncSeen, Dataset.fullSyncID, Dataset.fullSyncLease, Dataset.ID, Dataset.InternalID, []*server.Entity
 //@   at call NewTransaction#1
 //@     ghost txnG := $result
+//@   at call UnixNano#1 before
+//@     assert [C05:version-timestamp-taken-while-holding-the-write-lock] has($held, addrOf(ds.WriteLock))
 //@   at call StoreEntitiesWithTransaction#1 before
 //@     assert [C05:previous-version-read-under-the-write-lock] has($held, addrOf(ds.WriteLock))
 //@     assert [C04:one-transaction-for-the-batch] txn == txnG && txnTime >= 0
@@ -693,6 +695,8 @@ package server
 //@     ghost idsCommittedG := $result == nil
 //@   at call Commit#1 before
 //@     assert [C04:ids-committed-before-data] idsCommittedG && $arg0 == txnG
+//@   at call UnixNano#1 before
+//@     assert [C05:version-timestamp-taken-after-every-dataset-lock] forall a int :: 0 <= a && a < len(datasetNames) ==> has($held, addrOf(datasets[datasetNames[a]].WriteLock))
 //@   loop 1
 //@     invariant forall a int :: 0 <= a && a < len(datasetNames) ==> visited(datasetNames[a])
 //@     invariant forall a int, b int :: 0 <= a && a < b && b < len(datasetNames) ==> datasetNames[a] != datasetNames[b]
@@ -701,6 +705,7 @@ package server
 //@     invariant forall a int, b int :: 0 <= a && a < b && b < len(datasetNames) ==> datasetNames[a] < datasetNames[b]
 //@     invariant forall d *Dataset :: has($held, addrOf(d.WriteLock)) ==> $i >= 0 && d.ID <= datasetNames[$i]
 //@     invariant forall l int :: has($held, l) ==> lockLevel(l) <= 2
+//@     invariant forall a int :: 0 <= a && a <= $i ==> has(datasets, datasetNames[a]) && datasets[datasetNames[a]] != nil && has($held, addrOf(datasets[datasetNames[a]].WriteLock))
 
 // ---------------------------------------------------------------------------
 // C01: merging the per-dataset versions of an entity (unscoped lookup): keys are united; a value present on both
